@@ -300,7 +300,7 @@ def make_record(spec, cls=None):
             parts = [FeatureLocation(_position(z[0] if z else "e", p[0], True), _position(z[1] if z else "e", p[1], False), p[2],
                                      ref=p[3] if len(p) > 3 else None, ref_db=p[4] if len(p) > 4 else None) for p, z in zip(f["parts"], fz)]
             loc = parts[0] if len(parts) == 1 else CompoundLocation(parts)
-        feats.append(SeqFeature(loc, type=f["type"], qualifiers={k: list(v) for k, v in f.get("quals", {}).items()}, **({"id": f["fid"]} if "fid" in f else {})))
+        feats.append(SeqFeature(loc, type=f["type"], qualifiers={k: (v if isinstance(v, str) else list(v)) for k, v in f.get("quals", {}).items()}, **({"id": f["fid"]} if "fid" in f else {})))
     ann = dict(spec.get("annotations", {}))
     if "refs" in spec:
         refs = []
